@@ -2,8 +2,8 @@
    Only statements here; proofs are in proofs/ContentProofs.v.  store / fetch / receive are Node::store_chunk, the local branch
    of Node::fetch_chunk, and Node::receive_chunk = the CLI's decrypt_chunk_with_manifest, composed from the models of SHA-256
    (C08), ChaCha20 / CryptoManager (C09) and Shamir (C10); key, nonce and sharing coefficients are whatever std::random_device
-   yielded.  Reconstruction of the key from the shares for thresholds >= 2 is C10's statement, which is not proved there:
-   it appears here as the explicit hypothesis `combine (shares) t = Val key` (for threshold 1 it is discharged). *)
+   yielded.  Reconstruction of the key from the shares is C10's theorem (every threshold): the first two round-trip
+   theorems keep it as an explicit hypothesis, the `_full` ones discharge it. *)
 Require Import ZArith List Lia Bool.
 Import ListNotations.
 Local Open Scope Z_scope.
